@@ -99,7 +99,7 @@ def _dot_consistent(conds: Sequence[Tuple[str, bool, ast.AST]], sign: float, fol
         if not dots:
             continue
         if any(sorted(norm(a) for a in d.args) != [NI, NJ] for d in dots):
-            raise NotReadable(f"direction test `{k[:80]}` is not on dot(normal_i, normal_j)")
+            continue  # a dot product of other vectors (the offset criterion written with cosines): not about the direction of the normals
         seen = True
         try:
             val = bool(intervals.evaluate(n, lambda e: sign if isinstance(e, ast.Call) and norm(e.func) in ("numpy.dot", "np.dot") else None, fold))
@@ -202,19 +202,36 @@ def check_pair_loop(chk, fi: FuncInfo, loop: ast.For, sites: c03e.Sites, c: Dict
         return store
 
     # ---- the two criteria: groups of decisions by the angles they read ------------------------------------------------
+    # an angle is read as angle_between_vectors(a, b) (radians) or as the dot product of two unit vectors (its cosine)
+    def quantities(n: ast.AST) -> List[Tuple[ast.Call, Tuple[str, str, str]]]:
+        out = []
+        for x in ast.walk(n):
+            q = c03e.angle_quantity(x, (NI, NJ))
+            if q is not None:
+                out.append((x, q))
+        return out
+
+    def is_direction(n: ast.AST) -> bool:
+        """a test of the *sign* of dot(n_i, n_j): comparison of the plain dot product with zero"""
+        if isinstance(n, ast.Compare) and len(n.ops) == 1:
+            sides = [n.left, n.comparators[0]]
+            zero = [x for x in sides if isinstance(x, ast.Constant) and x.value in (0, 0.0)]
+            dots = [x for x in sides if isinstance(x, ast.Call) and norm(x.func) in ("numpy.dot", "np.dot") and sorted(norm(a) for a in x.args) == [NI, NJ]]
+            return len(zero) == 1 and len(dots) == 1
+        return False
+
     def group_of(n: ast.AST) -> Optional[str]:
-        calls = _abv_calls(n)
-        if not calls:
+        if is_direction(n):
             return None
-        sig = sorted(norm(x) for x in calls)
-        args = [sorted(norm(a) for a in x.args) for x in calls if len(x.args) == 2]
-        if len(calls) == 2 and sig in ([f"angle_between_vectors(-{NI}, {NJ})", f"angle_between_vectors({NI}, {NJ})"], [f"angle_between_vectors({NI}, -{NJ})", f"angle_between_vectors({NI}, {NJ})"], [f"angle_between_vectors(-{NJ}, {NI})", f"angle_between_vectors({NJ}, {NI})"]):
+        qs = quantities(n)
+        if not qs:
+            return None
+        ops = [{q[1].lstrip("-"), q[2].lstrip("-")} for x, q in qs]
+        if all(o == {NI, NJ} for o in ops) and len(qs) in (1, 2):
+            # angle(n_i, n_j) and angle(-n_i, n_j) side by side, or the one cosine dot(n_i, n_j) under abs()
             return "normals"
-        if len(calls) == 2 and len(args) == 2:
-            vecs = {a for x in calls for a in (norm(x.args[0]), norm(x.args[1]))}
-            ns = vecs & {NI, NJ}
-            if ns == {NI, NJ} and len(vecs - ns) == 1:
-                return "offset"
+        if len(qs) == 2 and all(len(o & {NI, NJ}) == 1 for o in ops) and {next(iter(o & {NI, NJ})) for o in ops} == {NI, NJ} and len({next(iter(o - {NI, NJ})) for o in ops if o - {NI, NJ}}) == 1:
+            return "offset"
         return "other"
 
     def decided(p: SX.Path, e: SX.Effect, keys: Set[str], value: bool) -> bool:
@@ -226,14 +243,14 @@ def check_pair_loop(chk, fi: FuncInfo, loop: ast.For, sites: c03e.Sites, c: Dict
 
     def check_region(tag: str, limit: float, rule: str) -> Optional[str]:
         alts = {}
-        calls: Dict[str, ast.Call] = {}
+        calls: Dict[str, Tuple[ast.Call, Tuple[str, str, str]]] = {}
         for p, e in recs:
             cs = [(k, v, n) for k, v, n in p.conds if group_of(n) == tag]
             a = c03e._conj(cs)
             alts[norm(a)] = a
             for k, v, n in cs:
-                for x in _abv_calls(n):
-                    calls[norm(x)] = x
+                for x, q in quantities(n):
+                    calls[norm(x)] = (x, q)
         if not calls:
             chk.violation(rule, fi.site(loop), f"the {tag} criterion is missing from the stacking loop: pairs are recorded without it", K(fi, f"{tag}-missing"))
             return None
@@ -242,24 +259,42 @@ def check_pair_loop(chk, fi: FuncInfo, loop: ast.For, sites: c03e.Sites, c: Dict
             return None
         test = ast.fix_missing_locations(c03e._disj(list(alts.values())))
         texts = sorted(calls)
-        qs = [((lambda n, t=t: isinstance(n, ast.Call) and norm(n) == t), "rad") for t in texts]
+        units = {q[0] for x, q in calls.values()}
+        if len(units) != 1:
+            chk.error(rule, fi.site(loop), f"the {tag} criterion mixes angles and cosines")
+            return None
+        unit = units.pop()
         try:
-            regn = intervals.region(test, qs, fold, extra_thresholds=(limit, 0.0, 180.0))
-            bad = {k: v for k, v in regn.items() if 0 <= k[0] <= 180 and 0 <= k[1] <= 180 and v != (not min(k) > limit)}
+            if tag == "normals" and len(texts) == 1:
+                # one quantity: the angle theta between the normals; the antiparallel arrangement is theta' = 180 - theta
+                qs = [((lambda n, t=texts[0]: isinstance(n, ast.Call) and norm(n) == t), unit)]
+                regn = intervals.region(test, qs, fold, extra_thresholds=(limit, 180.0 - limit, 0.0, 180.0))
+                bad = {k: v for k, v in regn.items() if 0 <= k[0] <= 180 and v != (not min(k[0], 180.0 - k[0]) > limit)}
+                shape = "the angle between the normals or its supplement"
+            else:
+                qs = [((lambda n, t=t: isinstance(n, ast.Call) and norm(n) == t), unit) for t in texts]
+                regn = intervals.region(test, qs, fold, extra_thresholds=(limit, 0.0, 180.0))
+                if tag == "normals":
+                    # the two quantities are theta and 180 - theta: only the cells on that line are reachable, compared along it
+                    bad = {k: v for k, v in regn.items() if 0 <= k[0] <= 180 and 0 <= k[1] <= 180 and v != (not min(k) > limit)}
+                else:
+                    bad = {k: v for k, v in regn.items() if 0 <= k[0] <= 180 and 0 <= k[1] <= 180 and v != (not min(k) > limit)}
+                shape = "the smaller of the two angles"
+            first = sorted(bad)[0] if bad else None
             chk.expect(
                 not bad,
                 rule,
                 fi.site(loop),
-                f"a pair is skipped iff the smaller of the two angles exceeds {limit} degrees ({len(regn)} cells compared, accept condition read from {len(recs)} recording paths)",
-                f"{tag} test does not skip exactly when min(angle_1, angle_2) > {limit} degrees (accept condition `{norm(test)[:110]}`)",
+                f"a pair is skipped iff {shape} exceeds {limit} degrees ({len(regn)} cells compared, accept condition read from {len(recs)} recording paths" + (", angles measured by their cosines" if unit == "cos" else "") + ")",
+                f"{tag} test does not skip exactly when {shape} exceeds {limit} degrees: e.g. at {first} degrees the pair is {'kept' if first is not None and bad[first] else 'skipped'} (accept condition `{norm(test)[:110]}`)",
                 K(fi, f"{tag}-region"),
                 expected=f"skip iff min(a1, a2) > {limit} deg",
-                found={str(k): v for k, v in list(bad.items())[:6]},
+                found={str(k): v for k, v in list(sorted(bad.items()))[:6]},
             )
         except intervals.NotThreshold as ex:
             chk.error(rule, fi.site(loop), str(ex))
         if tag == "offset":
-            vecs = {a for x in calls.values() for a in (norm(x.args[0]), norm(x.args[1]))} - {NI, NJ}
+            vecs = {a for x, q in calls.values() for a in (q[1], q[2])} - {NI, NJ}
             return next(iter(vecs)) if len(vecs) == 1 else None
         return None
 
